@@ -21,6 +21,7 @@ func Choice(parsers ...parsley.Parser) parser.Func {
 	return parser.Func(func(ctx *parsley.Context, leftRecCtx data.IntMap, pos parsley.Pos) (parsley.Node, data.IntSet, parsley.Error) {
 		cp := data.EmptyIntSet
 		var err parsley.Error
+		var notFoundErr parsley.Error // last "not found" error at our own position, used only if nothing else is left to report
 		for _, p := range parsers {
 			ctx.RegisterCall()
 			node, cp2, err2 := p.Parse(ctx, leftRecCtx, pos)
@@ -29,14 +30,23 @@ func Choice(parsers ...parsley.Parser) parser.Func {
 			if err2 != nil && (err == nil || err2.Pos() >= err.Pos()) {
 				if err2.Pos() > pos || !parsley.IsNotFoundError(err2) {
 					err = err2
+				} else {
+					notFoundErr = err2
 				}
 			}
 			if node != nil {
+				if err == nil {
+					err = notFoundErr
+				}
 				ctx.SetError(err)
 				return node, cp, nil
 			}
 		}
 
+		if err == nil {
+			// never fail silently: without this a failed parse would end as (nil, nil)
+			err = notFoundErr
+		}
 		return nil, cp, err
 	})
 }
